@@ -56,7 +56,9 @@ class ForLoop:
         start = e.start.value
         step = e.step.value
         stop = self.generator.get_integer(e.stop)
-        self.values = np.arange(start, stop + step, step, dtype=int)
+        # The stop value is inclusive, but must not be overshot when the
+        # range length is not a multiple of the step.
+        self.values = np.arange(start, stop + (1 if step > 0 else -1), step, dtype=int)
         self.index_variable = _new_mx(i.name)
         self.name = i.name
         self.indexed_symbols = OrderedDict()
